@@ -225,6 +225,34 @@ fn fn_json(
     })
 }
 
+fn flatten_use(t: &syn::UseTree, prefix: &mut Vec<String>, out: &mut Vec<Value>) {
+    match t {
+        syn::UseTree::Path(p) => {
+            prefix.push(p.ident.to_string());
+            flatten_use(&p.tree, prefix, out);
+            prefix.pop();
+        }
+        syn::UseTree::Name(n) => {
+            let mut v = prefix.clone();
+            v.push(n.ident.to_string());
+            out.push(json!({"path": v, "alias": Value::Null, "glob": false}));
+        }
+        syn::UseTree::Rename(r) => {
+            let mut v = prefix.clone();
+            v.push(r.ident.to_string());
+            out.push(json!({"path": v, "alias": r.rename.to_string(), "glob": false}));
+        }
+        syn::UseTree::Glob(_) => {
+            out.push(json!({"path": prefix.clone(), "alias": Value::Null, "glob": true}));
+        }
+        syn::UseTree::Group(g) => {
+            for i in &g.items {
+                flatten_use(i, prefix, out);
+            }
+        }
+    }
+}
+
 fn type_name(src: &Src, t: &syn::Type) -> String {
     let (s, e) = src.sp2(t.span());
     src.text[s..e].split_whitespace().collect::<Vec<_>>().join("")
@@ -282,8 +310,12 @@ fn items_json(src: &Src, prefix: &str, items: &[syn::Item]) -> Vec<Value> {
                     "span": src.sp(c.span()), "attrs": attrs_json(src, &c.attrs), "vis": vis_json(src, &c.vis)})),
             syn::Item::Type(c) => out.push(json!({"kind":"type","name": c.ident.to_string(), "path": p(&c.ident.to_string()),
                     "span": src.sp(c.span()), "attrs": attrs_json(src, &c.attrs), "vis": vis_json(src, &c.vis)})),
-            syn::Item::Use(u) => out.push(json!({"kind":"use","name":"", "path": p("use"),
-                    "span": src.sp(u.span()), "attrs": attrs_json(src, &u.attrs), "vis": vis_json(src, &u.vis)})),
+            syn::Item::Use(u) => {
+                let mut flat = vec![];
+                flatten_use(&u.tree, &mut vec![], &mut flat);
+                out.push(json!({"kind":"use","name":"", "path": p("use"), "leading_colon": u.leading_colon.is_some(),
+                    "span": src.sp(u.span()), "attrs": attrs_json(src, &u.attrs), "vis": vis_json(src, &u.vis), "uses": flat}))
+            }
             syn::Item::Macro(m) => {
                 let mut v = FnVisitor::new(src);
                 v.visit_macro(&m.mac);
